@@ -371,7 +371,7 @@ func init() {
 			if idx%128 == 5 && idx < 1024 {
 				return c18BigReader(r, idx)
 			}
-			if idx%64 == 9 { // a long-lived set: more than a hundred adds, most of them re-adds of the same few names
+			if idx%64 == 10 { // a long-lived set: more than a hundred adds, most of them re-adds of the same few names
 				return c18History(r, 180+r.Intn(60))
 			}
 			if idx%8 == 3 {
